@@ -64,7 +64,7 @@ func (c09) Info() core.Info {
 			"sections with alignment stuffing are not 'canonical': re-encoding their decoded form need not reproduce the stuffing",
 			"on a decoded signal with foreign descriptors the descriptor list is not replaced (where foreign descriptors would go is not defined); their order relative to segmentation descriptors must be kept",
 		},
-		RequiredProbes: []string{"encoded", "decoded_again", "reencoded_identical", "start_from_decoded", "flag_cleared_after_set", "value_beyond_field_width", "insert_cancelled", "insert_component_mode", "insert_with_duration", "descriptor_cancelled", "descriptor_components", "mid_set", "upid_set", "sub_segments", "command_replaced", "descriptors_replaced", "foreign_descriptor", "pts_adjustment_nonzero", "pts_adjustment_wraps", "data_unchanged_between_encodings", "no_effect_call", "three_descriptors", "component_edited_through_getter_object", "upid_of_a_mid_edited_through_getter_object", "sub_segment_flag_on_type_0x38_or_0x3A", "command_of_256_bytes_or_more", "pts_adjustment_on_a_command_without_time", "decoded_section_with_command_length_0xFFF", "own_components_handed_back_reordered", "encryption_algorithm_bits_set"},
+		RequiredProbes: []string{"encoded", "decoded_again", "reencoded_identical", "start_from_decoded", "flag_cleared_after_set", "value_beyond_field_width", "insert_cancelled", "insert_component_mode", "insert_with_duration", "descriptor_cancelled", "descriptor_components", "mid_set", "upid_set", "sub_segments", "command_replaced", "descriptors_replaced", "foreign_descriptor", "pts_adjustment_nonzero", "pts_adjustment_wraps", "data_unchanged_between_encodings", "no_effect_call", "three_descriptors", "component_edited_through_getter_object", "upid_of_a_mid_edited_through_getter_object", "sub_segment_flag_on_type_0x38_or_0x3A", "command_of_256_bytes_or_more", "pts_adjustment_on_a_command_without_time", "decoded_section_with_command_length_0xFFF", "own_components_handed_back_reordered", "encryption_algorithm_bits_set", "own_mid_entries_handed_back_in_another_order"},
 	}
 }
 
@@ -317,6 +317,10 @@ func (c09) Gen(r *core.Rand, tier string) interface{} {
 				// through the objects the getters hand out
 				if r.Chance(1, 3) {
 					op.Op = "comps_reorder" // hand the descriptor its own components back, reversed
+				} else if r.Chance(1, 3) {
+					// hand the descriptor its own MID entries back: reversed / rotated / behind a new one
+					op.Op, op.U = "mid_reorder", uint64(r.Intn(3))
+					op.MID = []ref.UPID{c09GenUPID(r)}
 				} else if r.Bool() {
 					op.Op, op.U = "comp_edit", uint64(r.Intn(4))
 					op.Comps = []ref.SegComp{{Tag: r.Intn(256), Off: r.Pick64(c09U33(r), 1<<33+2)}}
@@ -998,6 +1002,28 @@ func c09DescOp(c *core.Ctx, dd *c09Desc, op C09Op) bool {
 				cs[i], cs[j] = cs[j], cs[i]
 			}
 			d.SetComponents(cs)
+		case "mid_reorder":
+			if m.UPIDType == 0x0D && len(op.MID) == 1 {
+				ms := d.MID()
+				var l []scte35.UPID
+				switch op.U {
+				case 0:
+					for i := len(ms) - 1; i >= 0; i-- {
+						l = append(l, ms[i])
+					}
+				case 1:
+					if len(ms) > 0 {
+						l = append(l, ms[len(ms)-1])
+						l = append(l, ms[:len(ms)-1]...)
+					}
+				default:
+					x := scte35.CreateUPID()
+					x.SetUPIDType(scte35.SegUPIDType(op.MID[0].Type))
+					x.SetUPID(append([]byte(nil), op.MID[0].Data...))
+					l = append(append(l, x), ms...)
+				}
+				d.SetMID(l)
+			}
 		case "comp_edit":
 			if cs := d.Components(); len(op.Comps) == 1 && int(op.U) < len(cs) && int(op.U) < len(m.Comps) {
 				cs[op.U].SetComponentTag(byte(op.Comps[0].Tag))
@@ -1093,6 +1119,29 @@ func c09DescOp(c *core.Ctx, dd *c09Desc, op C09Op) bool {
 		m.Comps = rev
 		if len(rev) >= 2 {
 			c.Probe("own_components_handed_back_reordered")
+		}
+	case "mid_reorder":
+		if m.UPIDType == 0x0D && len(op.MID) == 1 {
+			old := m.MID
+			var l []ref.UPID
+			switch op.U {
+			case 0:
+				for i := len(old) - 1; i >= 0; i-- {
+					l = append(l, old[i])
+				}
+			case 1:
+				if len(old) > 0 {
+					l = append(l, old[len(old)-1])
+					l = append(l, old[:len(old)-1]...)
+				}
+			default:
+				l = append(l, ref.UPID{Type: op.MID[0].Type & 0xFF, Data: append(core.Hex(nil), op.MID[0].Data...)})
+				l = append(l, old...)
+			}
+			m.MID = l
+			if len(old) >= 2 {
+				c.Probe("own_mid_entries_handed_back_in_another_order")
+			}
 		}
 	case "comp_edit":
 		if len(op.Comps) == 1 && int(op.U) < len(m.Comps) {
